@@ -645,7 +645,37 @@ def fam_hier(R, idx):
     ctx = Ctx(R)
     w = R.choice([8, 32, 33])
     n = R.choice([2, 3, 4])
-    kind = idx % 5
+    kind = idx % 7
+    if kind == 5:
+        # several instances of ONE class whose update block reads per-instance constants through attributes of
+        # the component (s.K, s.TAB[ s.SEL ]): every instance must be translated with ITS constants
+        # (seeded change C03-C: constants memoised per AST node, which all instances of a class share)
+        ctx.globals_.append(
+            "class AddMask( Component ):\n  def construct( s, Type, offset, masks, sel ):\n    s.in_ = InPort( Type )\n"
+            "    s.out = OutPort( Type )\n    s.OFFSET = Type( offset )\n    s.MASKS = [ Type( m ) for m in masks ]\n"
+            "    s.SEL = sel\n    @update\n    def up():\n      s.out @= ( s.in_ + s.OFFSET ) & s.MASKS[ s.SEL ]\n")
+        T = "Bits%d" % w
+        decl = ["s.in_ = InPort( %s )" % T]
+        for j in range(n):
+            masks = [lit(R, w) | 1 for _ in range(3)]
+            decl += ["s.o%d = OutPort( %s )" % (j, T), "s.m%d = AddMask( %s, %d, %r, %d )" % (j, T, lit(R, w), masks, (j + 1) % 3),
+                     "s.m%d.in_ //= s.in_" % j, "s.o%d //= s.m%d.out" % (j, j)]
+        return "hier_k5_w%d_n%d" % (w, n), _emit(ctx, [], decl)
+    if kind == 6:
+        # a bitstruct CONSTANT with a two-dimensional packed-array field: connected to a wire and read by index,
+        # and as an attribute of the component read in an update block
+        # (seeded change C03-D: outer dimensions of the array of a struct literal emitted in list order)
+        d0, d1 = R.choice([(2, 3), (3, 2), (2, 2)])
+        ew = R.choice([4, 8])
+        ctx.globals_.append("@bitstruct\nclass Coef:\n  gain: Bits4\n  tap: [ [ Bits%d ] * %d ] * %d\n" % (ew, d1, d0))
+        vals = [[lit(R, ew) for _ in range(d1)] for _ in range(d0)]
+        vals[0][0], vals[-1][-1] = 1, 2            # make sure the corners differ
+        cst = "Coef( 9, [ %s ] )" % ", ".join("[ %s ]" % ", ".join("Bits%d( %d )" % (ew, v) for v in row) for row in vals)
+        decl = ["s.i = InPort( Bits%d )" % clog2(d0), "s.j = InPort( Bits%d )" % clog2(d1), "s.sel = OutPort( Bits%d )" % ew,
+                "s.gain = OutPort( Bits4 )", "s.corner = OutPort( Bits%d )" % ew, "s.whole = OutPort( Coef )",
+                "s.cfg = Wire( Coef )", "s.cfg //= %s" % cst, "s.whole //= s.cfg"]
+        blocks = [_block("up", ["s.sel @= s.cfg.tap[ s.i ][ s.j ]", "s.gain @= s.cfg.gain", "s.corner @= s.cfg.tap[%d][%d]" % (d0 - 1, d1 - 1)])]
+        return "hier_k6_e%d_%dx%d" % (ew, d0, d1), _emit(ctx, blocks, decl)
     ctx.globals_.append(
         "class MsgIfc( Interface ):\n  def construct( s, Type ):\n    s.msg = InPort( Type )\n    s.val = InPort( Bits1 )\n"
         "    s.rdy = OutPort( Bits1 )\n")
